@@ -3,7 +3,7 @@
 #define VERIF_INTERP_RIG_H
 static CoreTiming g_ct; static MemoryInterface g_mem;
 #define INTERP_RIG(it, st) NONDET(RegisterState, st); Interpreter it; memset(&it, 0, sizeof it); it.core_timing = &g_ct; it.regs = &st; it.mem = &g_mem; verif_outcome = 0; \
-    NATIVE_ONLY(regs_make_wf(&st);) ASSUME(wf_regs(&st))
+    NATIVE_ONLY(regs_make_wf(&st);) CBMC_ONLY(st.rep = st.rep ? 1 : 0;) ASSUME(wf_regs(&st))
 #ifndef VERIF_CBMC
 /* native sampling: push random bytes into the hardware widths so that wf_regs accepts them */
 static void regs_make_wf(RegisterState *r)
